@@ -372,6 +372,12 @@ func (el *eventloop) close(c *conn, err error) error {
 
 	el.connections.delConn(c)
 	action := el.eventHandler.OnClose(c, err)
+	if action == Shutdown {
+		// Honor the Shutdown action no matter who called close: some callers
+		// (conn.write/writev on a failed write, EventLoop.Close) don't pass
+		// the returned error on to the polling loop.
+		el.engine.shutdown(errorx.ErrEngineShutdown)
+	}
 
 	// Send residual data in buffer back to the remote before actually closing the connection.
 	for !c.outboundBuffer.IsEmpty() {
